@@ -23,7 +23,7 @@ for line in open(os.path.join(V, "seeded", "RESULTS.tsv")):
     detail = sig if sig and sig != "None" else ""
     if broken and broken != "[]":
         detail += (" + " if detail else "") + "broken " + broken
-    rows.append("| %s/%s | %s | %s | %s |" % (pid, n, title[:150], how, detail[:110]))
+    rows.append("| %s/%s | %s | %s%s | %s |" % (pid, n, title[:150], how, "" if chk == pid else " (check %s)" % chk, detail[:110]))
 print("| change | what was changed | outcome of `bin/check %s` (quick) | signature / broken obligation |".replace("%s", "<its property>"))
 print("|---|---|---|---|")
 print("\n".join(rows))
